@@ -8,7 +8,7 @@ under a condition on a *different* field leaves dst.F stale/uninitialised on tha
 from vfacts import strip, walk, root_path, stmt_exits, is_node
 
 RULE = 'COPYALL'
-FLOOR = 20
+FLOOR = 30
 
 
 def field_copy(n):
